@@ -1,25 +1,63 @@
 (* C14 - the property text says "mode is the maximiser" for every policy distribution.  For the
    tanh-squashed Gaussian (and gSDE with squash_output) mode() returns tanh(mean); the faithful
    model shows that this is NOT the maximiser of the action-space density that log_prob computes:
-   with mean = 1, log_std = 0 the action tanh(2) has a strictly larger density (and a strictly
-   larger log_prob under the code's formula with epsilon = 1e-6). *)
-From Coq Require Import Reals List.
-From Interval Require Import Tactic.
+   with mean = 0, log_std = 1 the action tanh(2) has a strictly larger density than mode() = 0
+   (the squashed density even has a local minimum at tanh(mean) there).  Proved by hand from
+   1 + x <= exp x (no Interval), so Props/C14.v stays within the standard library's real axioms.
+   The same defect is reproduced on the implementation by harness/c14.py (corpus/C14.jsonl). *)
+From Coq Require Import Reals List Lra.
 From SB3V Require Import Model.Distributions Proofs.DistributionsProofs.
 Import ListNotations.
 Local Open Scope R_scope.
 
+Lemma one_minus_tanh2 u : 1 - (tanh u) ^ 2 = / (cosh u) ^ 2.
+Proof.
+  unfold tanh. pose proof (cosh_pos u) as Hc.
+  assert (E : (cosh u) ^ 2 - (sinh u) ^ 2 = 1).
+  { unfold cosh, sinh. assert (exp u * exp (- u) = 1) by (rewrite <- exp_plus, Rplus_opp_r; apply exp_0). nra. }
+  replace (1 - (sinh u / cosh u) ^ 2) with (((cosh u) ^ 2 - (sinh u) ^ 2) / (cosh u) ^ 2) by (field; lra).
+  rewrite E. unfold Rdiv. ring.
+Qed.
+
+Lemma exp1_ge_2 : 2 <= exp 1.
+Proof. pose proof (exp_ineq1_le 1). lra. Qed.
+
+Lemma cosh2_ge_2 : 2 <= cosh 2.
+Proof.
+  unfold cosh. pose proof (exp_pos (Ropp 2)).
+  assert (4 <= exp 2).
+  { replace 2 with (1 + 1) by lra. rewrite exp_plus. pose proof exp1_ge_2. nra. }
+  lra.
+Qed.
+
 Theorem C14_squashed_mode_not_maximiser_refuted :
   exists (mu ls a : R), -1 < a < 1 /\
-    (* exact action-space density *)
-    squashed_pdf mu (exp ls) (nth 0 (squashed_mode [(mu, ls)]) 0) < squashed_pdf mu (exp ls) a /\
-    (* the code's log_prob formula, epsilon = 1e-6, cached pre-squash value for the mode *)
-    squashed_logprob_g 1e-6 [(mu, ls)] (squashed_mode [(mu, ls)]) (gauss_mode [(mu, ls)])
-    < squashed_logprob_g 1e-6 [(mu, ls)] [a] [artanh a].
+    squashed_pdf mu (exp ls) (nth 0 (squashed_mode [(mu, ls)]) 0) < squashed_pdf mu (exp ls) a.
 Proof.
-  exists 1, 0, (tanh 2). split; [apply tanh_range|].
-  unfold squashed_mode, gauss_mode, squashed_logprob_g, gauss_logprob, gauss_logpdfs, squashed_pdf, normal_pdf,
-    normal_logpdf, squash_correction, sumR.
-  cbn [map map2 fst snd nth fold_right].
-  rewrite !artanh_tanh. split; interval.
+  exists 0, 1, (tanh 2). split; [apply tanh_range|].
+  unfold squashed_mode, gauss_mode. cbn [map fst nth].
+  unfold squashed_pdf, normal_pdf. rewrite !artanh_tanh.
+  rewrite !one_minus_tanh2.
+  assert (C0 : cosh 0 = 1) by apply cosh_0. rewrite C0.
+  unfold normal_logpdf.
+  set (K := - ln (exp 1) - ln (sqrt (2 * PI))).
+  pose proof (exp_pos 1) as He1.
+  assert (S4 : 4 <= exp 1 ^ 2) by (pose proof exp1_ge_2; nra).
+  replace (- (0 - 0) ^ 2 / (2 * exp 1 ^ 2) - ln (exp 1) - ln (sqrt (2 * PI))) with K by (unfold K; field; lra).
+  replace (- (2 - 0) ^ 2 / (2 * exp 1 ^ 2) - ln (exp 1) - ln (sqrt (2 * PI))) with (- 2 / exp 1 ^ 2 + K) by (unfold K; field; lra).
+  rewrite exp_plus. pose proof (exp_pos K) as HK.
+  assert (E1 : 1 / 2 <= exp (- 2 / exp 1 ^ 2)).
+  { pose proof (exp_ineq1_le (- 2 / exp 1 ^ 2)) as H.
+    assert (- 2 / exp 1 ^ 2 >= - (1 / 2)).
+    { unfold Rdiv. assert (/ exp 1 ^ 2 <= / 4) by (apply Rinv_le_contravar; lra).
+      assert (0 < / exp 1 ^ 2) by (apply Rinv_0_lt_compat; lra). lra. }
+    lra. }
+  assert (C2 : 4 <= cosh 2 ^ 2) by (pose proof cosh2_ge_2; nra).
+  replace (/ 1 ^ 2) with 1 by (field).
+  unfold Rdiv. rewrite Rinv_inv. rewrite Rinv_1, Rmult_1_r.
+  assert (exp K * 1 < exp (-2 * / exp 1 ^ 2) * exp K * cosh 2 ^ 2); [|lra].
+  unfold Rdiv in E1.
+  set (X := exp (-2 * / exp 1 ^ 2)) in *. set (C := cosh 2 ^ 2) in *.
+  assert (2 <= X * C) by nra.
+  replace (X * exp K * C) with (exp K * (X * C)) by ring. nra.
 Qed.
